@@ -454,7 +454,21 @@ def run(ctx):
         ctx.check('C09.W1', ok, live.name, 'live:definition', live.where(e),
                   'an entry is live iff its node has a producer with a non-empty deps binding: `%s` under %s' %
                   ((e.get('src') or '')[:80], sorted(t for kd, p, t in known)))
-    ctx.floor('C09.W1', 10)
+    # a recompaction that failed has already reset (or partly reassigned) the ids of all nodes: the old log cannot be
+    # appended to any more, OpenForWrite must fail
+    ow = prog.fn('DepsLog::OpenForWrite')
+    reject_if(ctx, 'C09.W1', ow, lambda a: mentions_call(a, 'DepsLog::Recompact'), False,
+              'a failed recompaction fails OpenForWrite (no appending to the old log with reset ids)', 'OpenForWrite:recompact-failure-ignored')
+    # Load: the later record of an output replaces the earlier one, unconditionally - every deps record that passed
+    # validation reaches UpdateDeps before the next record is read
+    for e in load.events('new'):
+        if 'Deps' not in (e.get('ty') or ''):
+            continue
+        r = load.find_path(e, lambda x: x['k'] == 'call' and x.get('name') == 'fread', is_blocker=lambda x: x['k'] == 'call' and x.get('name') == 'DepsLog::UpdateDeps')
+        ctx.check('C09.W1', r is None, load.name, 'Load:record-not-applied', load.where(e),
+                  'a validated deps record always replaces what was loaded before for that output (UpdateDeps on every path)',
+                  witness=None if r is None else {'blocks': r[0]})
+    ctx.floor('C09.W1', 12)
 
 
 def rule_tb1(ctx, RID):
